@@ -2,7 +2,9 @@
     safely.  The written type S has fields [fs], the reading type S' fields
     [fs'].  Fields are related through their plenc index only ([partner]):
     renaming and reordering change neither index nor codec, removed fields have
-    no partner in S', added fields of S' have no partner in S.
+    no partner in S', added fields of S' have no partner in S.  A partner has the
+    same codec - or reads, with the default counted-slice codec, a field that was
+    written in the protobuf repeated form ([same_or_default_reads], C12).
     PARTIAL: proved for field codecs of the [rt_ok] fragment (every wire type
     occurs: varint, fixed 32/64, length-delimited incl. nested structs and
     packed slices, counted slices and maps, and the protobuf repeated forms,
@@ -18,7 +20,7 @@ Open Scope N_scope.
 Theorem C03_evolution_partial : forall nm n fs nm' n' fs' vs prior,
   NoDup (map (fun f => f_index f) fs') ->
   Forall (fun f => rt_ok (f_codec f) /\ (0 <= f_index f < 2305843009213693952)%Z
-                   /\ (forall g, partner fs' f = Some g -> f_codec g = f_codec f)) fs ->
+                   /\ (forall g, partner fs' f = Some g -> same_or_default_reads (f_codec f) (f_codec g))) fs ->
   Forall (fun f => (omit (f_codec f) (slot vs (f_slot f)) = true \/ wfv (f_codec f) (slot vs (f_slot f)))
                    /\ fits (f_codec f) (slot vs (f_slot f))) fs ->
   dec (CStruct nm' n' fs') (enc (CStruct nm n fs) (VStruct vs) []) WTLength prior
